@@ -197,11 +197,23 @@ def check_case(case):
     out = os.path.join(d, "out")
     home = os.path.join(d, "home")
     os.makedirs(home, exist_ok=True)
-    gen_crop = xyz.Crop(name=NAME, parent_dir=d)
+    cwd0 = os.getcwd()
+    rel = core.pick([sched, mode, B, have, sel, "rel"], 3) == 0
+    if rel:
+        # the crop is addressed by a path relative to the directory the user
+        # happens to be in when generating the script (the job itself runs
+        # from somewhere else)
+        os.chdir(os.path.dirname(d))
+        gen_crop = xyz.Crop(name=NAME, parent_dir=os.path.basename(d))
+    else:
+        gen_crop = xyz.Crop(name=NAME, parent_dir=d)
     try:
-        script = gen_crop.gen_cluster_script(
-            sched, bids, mode=mode, launcher=stub_launcher(),
-            output_directory=out, conda_env=False, **opts)
+        try:
+            script = gen_crop.gen_cluster_script(
+                sched, bids, mode=mode, launcher=stub_launcher(),
+                output_directory=out, conda_env=False, **opts)
+        finally:
+            os.chdir(cwd0)
     except Exception as e:
         return {"nontrivial": B >= 2, "outcome": "gen-raised",
                 "violations": [(key("gen-raised:" + type(e).__name__),
